@@ -190,8 +190,9 @@ def run_property(prop, tier, seed, only=None):
         evidence['coverage']['states'] = 1
     if evidence['coverage']['transitions'] < 1:
         evidence['coverage']['transitions'] = 1
-    os.makedirs(os.path.join(HERE, 'evidence'), exist_ok=True)
-    with open(os.path.join(HERE, 'evidence', f'{prop}.json'), 'w') as out:
+    evdir = os.environ.get('VERIF_EVIDENCE_DIR') or os.path.join(HERE, 'evidence')
+    os.makedirs(evdir, exist_ok=True)
+    with open(os.path.join(evdir, f'{prop}.json'), 'w') as out:
         json.dump(evidence, out, indent=1, default=repr)
     # --- verdict
     seen = set()
